@@ -74,10 +74,10 @@ func RequestDownload(cl *refclient.Client, name []byte, path [][]byte, offset in
 // segments), optionally ends the stream (EOF or error), waits for the handler to return and gives back
 // everything the server wrote.
 type Run struct {
-	T      *refclient.Transfer
-	Out    []byte
-	Err    error
-	Done   bool
+	T    *refclient.Transfer
+	Out  []byte
+	Err  error
+	Done bool
 }
 
 func Start(srv *fixture.Server, addr string, ref []byte, size int, payload [][]byte) *refclient.Transfer {
@@ -165,11 +165,11 @@ func Describe(b []byte) string {
 // folder transfers
 
 type DlItem struct {
-	IsFolder bool
-	Path     [][]byte
-	Action   int    // what the client answered
-	Announced int   // size prefix announced by the server (files that were sent)
-	Payload  []byte // flattened file + data as sent by the server
+	IsFolder  bool
+	Path      [][]byte
+	Action    int    // what the client answered
+	Announced int    // size prefix announced by the server (files that were sent)
+	Payload   []byte // flattened file + data as sent by the server
 }
 
 // FolderDownload runs the client side of a folder download. choose decides the action per item:
@@ -235,11 +235,11 @@ func FolderDownload(srv *fixture.Server, addr string, ref []byte, maxItems int, 
 }
 
 type UpItem struct {
-	IsFolder bool
-	Path     [][]byte
+	IsFolder  bool
+	Path      [][]byte
 	RawHeader []byte // when set, sent instead of the encoded header
-	Data     []byte
-	CutAfter int // when > 0: deliver only this many bytes of the (remaining) data, then end the connection
+	Data      []byte
+	CutAfter  int // when > 0: deliver only this many bytes of the (remaining) data, then end the connection
 	// filled in by the client
 	Action int
 	Offset int
